@@ -104,7 +104,8 @@ pub fn gen_len(src: &mut Src, sizes: &[u32; 5], max_slices: usize) -> usize {
 }
 
 pub fn pick_dir(src: &mut Src, w: &World) -> Dir {
-    let client = src.below(w.cfg.n_clients);
+    let active: Vec<usize> = (0..w.cfg.n_clients).filter(|&i| w.active[i]).collect();
+    let client = if active.is_empty() { 0 } else { active[src.below(active.len())] };
     let to_client = src.chance(128);
     Dir { client, to_client }
 }
@@ -349,10 +350,13 @@ pub const HEAL_DT: u64 = 500;
 /// Units (small messages or slices) of reliable messages not yet obtained, per direction.
 fn outstanding_units(w: &World, d: Dir) -> usize {
     let mut units = 0;
-    for cm in w.dirs[d.idx()].chans.values() {
+    if !w.active[d.client] {
+        return 0;
+    }
+    for (ch, cm) in w.dirs[d.idx()].chans.iter() {
         if cm.cfg.kind.reliable() {
             for m in cm.msgs.iter() {
-                if m.obtained == 0 {
+                if m.obtained == 0 && !w.exempt(d, *ch, m) {
                     units += m.parts;
                 }
             }
@@ -449,7 +453,7 @@ pub fn heal(w: &mut World, ctx: &mut Ctx, liveness: bool, hook: StepHook) -> Res
                         let mut detail = String::new();
                         for (id, cm) in w.dirs[d.idx()].chans.iter() {
                             if cm.cfg.kind.reliable() {
-                                let missing: Vec<u64> = cm.msgs.iter().filter(|m| m.obtained == 0).map(|m| m.mid).take(4).collect();
+                                let missing: Vec<u64> = cm.msgs.iter().filter(|m| m.obtained == 0 && !w.exempt(d, *id, m)).map(|m| m.mid).take(4).collect();
                                 if !missing.is_empty() {
                                     detail.push_str(&format!(" channel {id} ({:?}) missing ids {missing:?};", cm.cfg.kind));
                                 }
